@@ -44,10 +44,16 @@ static pthread_mutex_t trmx = PTHREAD_MUTEX_INITIALIZER;
 int __real_pthread_mutex_lock(pthread_mutex_t *);
 int __real_pthread_mutex_unlock(pthread_mutex_t *);
 
+extern int memrec_on;
+void memrec_flush(void);
+
 void tr(const char *fmt, ...)
 {
 	va_list ap;
 	int n;
+
+	if (memrec_on)
+		memrec_flush();	/* the accesses of the segment that ends here */
 
 	if (simk_passthrough)
 		__real_pthread_mutex_lock(&trmx);
@@ -519,7 +525,7 @@ static void *boot(void *p)
 {
 	struct boot b = *(struct boot *)p;
 
-	free(p);
+	__real_free(p);
 	me = b.id;
 	pthread_setspecific(exitkey, (void *)1);
 	__real_pthread_mutex_lock(&M);
@@ -537,7 +543,7 @@ int __wrap_pthread_create(pthread_t *pt, const pthread_attr_t *a, void *(*fn)(vo
 	int e = fault_check("pthread_create");
 	if (e)
 		return e;
-	struct boot *b = malloc(sizeof *b);
+	struct boot *b = __real_malloc(sizeof *b);
 	b->fn = fn;
 	b->arg = arg;
 	__real_pthread_mutex_lock(&M);
@@ -847,7 +853,10 @@ int __wrap_epoll_create(int n)
 		errno = e;
 		return -1;
 	}
-	return __real_epoll_create(n);
+	int r = __real_epoll_create(n);
+	if (r >= 0)
+		tr("\"e\":\"FdNew\",\"n\":%d,\"k\":\"epoll\"}", r);
+	return r;
 }
 
 int __wrap_timerfd_create(int clk, int flags)
@@ -860,6 +869,8 @@ int __wrap_timerfd_create(int clk, int flags)
 	if (simk_passthrough)
 		return __real_timerfd_create(clk, flags);
 	int fd = eventfd(0, EFD_NONBLOCK | EFD_CLOEXEC);
+	if (fd >= 0)
+		tr("\"e\":\"FdNew\",\"n\":%d,\"k\":\"timerfd\"}", fd);
 	if (fd >= 0 && ntf < MAXTF) {
 		TF[ntf].fd = fd;
 		TF[ntf].armed = 0;
@@ -910,7 +921,7 @@ int __wrap_close(int fd)
 		}
 	}
 	int f = hooks.fid_of_osfd ? hooks.fid_of_osfd(fd) : 0;
-	tr("\"e\":\"Close\",\"f\":%d}", f);
+	tr("\"e\":\"Close\",\"f\":%d,\"n\":%d}", f, fd);
 	return __real_close(fd);
 }
 
@@ -921,7 +932,12 @@ int __wrap_pipe(int *p)
 		errno = e;
 		return -1;
 	}
-	return __real_pipe(p);
+	int r = __real_pipe(p);
+	if (r == 0) {
+		tr("\"e\":\"FdNew\",\"n\":%d,\"k\":\"pipe\"}", p[0]);
+		tr("\"e\":\"FdNew\",\"n\":%d,\"k\":\"pipe\"}", p[1]);
+	}
+	return r;
 }
 
 ssize_t __wrap_read(int fd, void *buf, size_t n)
@@ -984,7 +1000,17 @@ long __wrap_syscall(long nr, ...)
 			return -1;
 		}
 	}
-	return __real_syscall(nr, a[0], a[1], a[2], a[3], a[4], a[5]);
+	long r = __real_syscall(nr, a[0], a[1], a[2], a[3], a[4], a[5]);
+	if (nm && r >= 0) {
+		if (nr == SYS_pipe2) {
+			int *pp = (int *)a[0];
+			tr("\"e\":\"FdNew\",\"n\":%d,\"k\":\"pipe\"}", pp[0]);
+			tr("\"e\":\"FdNew\",\"n\":%d,\"k\":\"pipe\"}", pp[1]);
+		} else {
+			tr("\"e\":\"FdNew\",\"n\":%d,\"k\":\"%s\"}", (int)r, nm);
+		}
+	}
+	return r;
 }
 
 /* ------------------------------------------------------------ init / exit */
